@@ -32,6 +32,7 @@ RULE = ("histories: a real client/server pair brought into a drawn state (connec
         "part: all single-bit flips and all truncations of sampled genuine datagrams. evaluations = injected datagrams. "
         "non-trivial = target holds a key and has a pending ack named by the datagram's ack fields, or a non-empty receive "
         "window, or a queued callback; distinct by (class, type, count, inner types, target, state, seq placement, op).")
+RULE += (" " + 'Round-8 addition: attack class freshhello = the complete, padded, CRC-valid CLIENT_HELLO datagram of a brand-new client (another key, datagram number 1 / 2 / next expected) aimed at established, half-open and closing endpoints.')
 ASSUMPTIONS = [
     "AES-GCM (OpenSSL) is trusted; the attacker knows everything on the wire but no session key",
     "an extension of a delivered genuine datagram is a duplicate of it (allowed outcome: dropped, counted)",
